@@ -27,7 +27,7 @@ pub fn c15(ctx: &Ctx, subj: &dyn DynSubject, ty: &Ty, rep: &mut Report) {
             Ok(Err(e)) => return Err(Fail::new(&format!("tag-roundtrip-full-error:{}", err_name(&e)), format!("full copy of valid tags failed: {:?}", e))),
             Err(p) => return Err(Fail::new(&format!("tag-roundtrip-full-panic:{}", panic_class(&p)), format!("full copy of valid tags panicked: {}", p))),
         }
-        let pl = Placed::new(&bytes, 4096, 0);
+        let pl = Placed::new(&bytes, 16384, 0);
         match guard(|| subj.eps(pl.bytes()).map(|o| o.val)) {
             Ok(Ok(x)) if x == *v => {}
             Ok(Ok(x)) => return Err(Fail::new("tag-roundtrip-eps", format!("ε-copy maps the written tags to a different value: {}", x.show()))),
@@ -76,7 +76,7 @@ pub fn c15(ctx: &Ctx, subj: &dyn DynSubject, ty: &Ty, rep: &mut Report) {
                     Ok(Ok(x)) => return Err(Fail::new("foreign-tag-full-value", format!("foreign tag {} at {} site was mapped to a variant by full copy: {}", t, site.kind, x.show())).env(env)),
                     Err(p) => return Err(Fail::new(&format!("foreign-tag-full-panic:{}", panic_class(&p)), format!("foreign tag {} at {} site: full copy panicked: {}", t, site.kind, p)).env(env)),
                 }
-                let pl = Placed::new(&m, 4096, 0);
+                let pl = Placed::new(&m, 16384, 0);
                 match guard(|| subj.eps(pl.bytes()).map(|o| o.val)) {
                     Ok(Err(deser::Error::InvalidTag(x))) if x == t => {}
                     Ok(Err(deser::Error::InvalidTag(x))) => return Err(Fail::new("foreign-tag-eps-payload", format!("foreign tag {} at {} site (offset {}): ε-copy reports InvalidTag({})", t, site.kind, site.pos, x)).env(env)),
